@@ -911,3 +911,899 @@ Proof.
   replace (p <=? 9) with false by (symmetry; apply Z.leb_gt; lia).
   reflexivity.
 Qed.
+
+(* ================================================================== *)
+(* 13. Digit-level lemmas                                              *)
+(* ================================================================== *)
+
+Lemma sapp_assoc a b c : (a +++ b) +++ c = a +++ (b +++ c).
+Proof. induction a as [|x a IH]; cbn; [reflexivity|]. rewrite IH. reflexivity. Qed.
+
+Lemma sapp_nil_r a : a +++ EmptyString = a.
+Proof. induction a as [|x a IH]; cbn; [reflexivity|]. rewrite IH. reflexivity. Qed.
+
+Lemma digit_cases k : 0 <= k <= 9 ->
+  k = 0 \/ k = 1 \/ k = 2 \/ k = 3 \/ k = 4 \/ k = 5 \/ k = 6 \/ k = 7 \/ k = 8 \/ k = 9.
+Proof. lia. Qed.
+
+Lemma digit_char_ok k : 0 <= k <= 9 ->
+  is_digit (digit_char k) = true /\ digit_val (digit_char k) = k.
+Proof.
+  intros H. destruct (digit_cases k H) as [->|[->|[->|[->|[->|[->|[->|[->|[->| ->]]]]]]]]];
+    split; reflexivity.
+Qed.
+
+Lemma is_digit_true k : 0 <= k <= 9 -> is_digit (digit_char k) = true.
+Proof. intros H. apply (digit_char_ok k H). Qed.
+Lemma digit_val_char k : 0 <= k <= 9 -> digit_val (digit_char k) = k.
+Proof. intros H. apply (digit_char_ok k H). Qed.
+
+(* a digit is none of the punctuation the layouts use *)
+Lemma digit_not c x : is_digit c = true -> is_digit x = false -> Ascii.eqb c x = false.
+Proof.
+  intros Hc Hx. destruct (Ascii.eqb_spec c x) as [->|]; [|reflexivity]. congruence.
+Qed.
+
+Lemma getnum_fmt2 n r fixed : 0 <= n < 100 -> getnum (fmt2 n +++ r) fixed = Some (n, r).
+Proof.
+  intros Hn. unfold fmt2. cbn [String.append]. unfold getnum.
+  rewrite !is_digit_true by lia. rewrite !digit_val_char by lia. f_equal. f_equal. lia.
+Qed.
+
+Lemma parse_year_fmt4 y r : 0 <= y < 10000 -> parse_year (fmt4 y +++ r) = Some (y, r).
+Proof.
+  intros Hy. unfold fmt4. cbn [String.append]. unfold parse_year.
+  rewrite !is_digit_true by lia. rewrite !digit_val_char by lia. cbn [andb]. f_equal. f_equal. lia.
+Qed.
+
+Lemma append_int_2 n : 0 <= n < 100 -> append_int n 2 = fmt2 n.
+Proof.
+  intros Hn. unfold append_int. rewrite Z.abs_eq by lia.
+  replace (n <? 0) with false by (symmetry; apply Z.ltb_ge; lia).
+  replace (n <? 100) with true by (symmetry; apply Z.ltb_lt; lia). reflexivity.
+Qed.
+
+Lemma append_int_4 n : 0 <= n < 10000 -> append_int n 4 = fmt4 n.
+Proof.
+  intros Hn. unfold append_int. rewrite Z.abs_eq by lia.
+  replace (n <? 0) with false by (symmetry; apply Z.ltb_ge; lia).
+  replace (n <? 10000) with true by (symmetry; apply Z.ltb_lt; lia). reflexivity.
+Qed.
+
+(* ---------- fractional seconds ---------- *)
+
+Fixpoint all_digits (s : string) : Prop :=
+  match s with EmptyString => True | String c r => is_digit c = true /\ all_digits r end.
+
+(* what may follow a seconds field in a formatted value: nothing, or a byte
+   that is neither a digit nor a fraction separator *)
+Definition stop (r : string) : Prop :=
+  match r with
+  | EmptyString => True
+  | String c _ => is_digit c = false /\ comma_or_period c = false
+  end.
+
+Lemma fixed_digits_all k n : all_digits (fixed_digits k n).
+Proof. induction k as [|k IH]; cbn; [exact I|]. split; [apply is_digit_true; lia|exact IH]. Qed.
+
+Lemma strip0_all s : all_digits s -> all_digits (strip0 s).
+Proof.
+  induction s as [|c s IH]; cbn; [trivial|]. intros [Hc Hs].
+  destruct (str_empty (strip0 s) && Ascii.eqb c ch_zero); cbn; auto.
+Qed.
+
+Lemma take_digits_stop ds r : all_digits ds -> stop r -> take_digits (ds +++ r) = (ds, r).
+Proof.
+  intros Hd Hr. induction ds as [|c ds IH]; cbn.
+  - destruct r as [|c r]; [reflexivity|]. cbn. destruct Hr as [-> _]. reflexivity.
+  - destruct Hd as [Hc Hd]. rewrite Hc. rewrite (IH Hd). reflexivity.
+Qed.
+
+Lemma frac_val_nil k : frac_val k EmptyString = 0.
+Proof. destruct k; reflexivity. Qed.
+
+Lemma frac_val_strip0 s : forall k, frac_val k (strip0 s) = frac_val k s.
+Proof.
+  induction s as [|c s IH]; intros k; [reflexivity|]. cbn [strip0].
+  destruct k as [|k]; [destruct (_ && _); reflexivity|].
+  destruct (str_empty (strip0 s)) eqn:E; cbn [andb].
+  - destruct (Ascii.eqb_spec c ch_zero) as [->|Hne].
+    + cbn [frac_val]. rewrite <- IH. destruct (strip0 s); [|discriminate].
+      rewrite frac_val_nil. reflexivity.
+    + cbn [frac_val]. rewrite IH. reflexivity.
+  - cbn [frac_val]. rewrite IH. reflexivity.
+Qed.
+
+Lemma frac_val_fixed k n : 0 <= n -> frac_val k (fixed_digits k n) = n mod 10 ^ Z.of_nat k.
+Proof.
+  intros Hn. induction k as [|k IH]; [cbn; rewrite Z.mod_1_r; reflexivity|].
+  cbn [fixed_digits frac_val]. rewrite IH.
+  rewrite digit_val_char by (pose proof (Z.mod_pos_bound (n / 10 ^ Z.of_nat k) 10 ltac:(lia)); lia).
+  replace (Z.of_nat (S k)) with (Z.of_nat k + 1) by lia.
+  rewrite Z.pow_add_r by lia. change (10 ^ 1) with 10.
+  assert (Hp : 0 < 10 ^ Z.of_nat k) by (apply Z.pow_pos_nonneg; lia).
+  rewrite (Z.rem_mul_r n (10 ^ Z.of_nat k) 10) by lia. lia.
+Qed.
+
+Lemma parse_frac_stop r : stop r -> parse_frac r = (0, r).
+Proof.
+  destruct r as [|c0 [|c1 r]]; try reflexivity. cbn. intros [_ ->]. reflexivity.
+Qed.
+
+Lemma parse_frac_nano ns r :
+  0 <= ns < 1000000000 -> stop r -> parse_frac (append_nano9 ns +++ r) = (ns, r).
+Proof.
+  intros Hn Hr. unfold append_nano9.
+  pose proof (frac_val_fixed 9 ns ltac:(lia)) as Hv.
+  change (10 ^ Z.of_nat 9) with 1000000000 in Hv. rewrite Z.mod_small in Hv by lia.
+  rewrite <- frac_val_strip0 in Hv.
+  pose proof (strip0_all _ (fixed_digits_all 9 ns)) as Hall.
+  destruct (Z.eqb_spec ns 0) as [->|Hne]; [cbn [String.append]; apply parse_frac_stop; exact Hr|].
+  destruct (strip0 (fixed_digits 9 ns)) as [|c1 ds] eqn:E.
+  - cbn [str_empty String.append]. rewrite frac_val_nil in Hv. lia.
+  - cbn [str_empty String.append]. unfold parse_frac.
+    destruct Hall as [Hc1 Hds].
+    replace (comma_or_period ch_dot) with true by reflexivity. rewrite Hc1. cbn [andb].
+    change (String c1 (ds +++ r)) with (String c1 ds +++ r).
+    rewrite take_digits_stop by (cbn; auto). rewrite Hv. reflexivity.
+Qed.
+
+(* ---------- numeric zone "-07:00" ---------- *)
+
+Definition off_ok (off : Z) : Prop := -90000 < off < 90000 /\ off mod 60 = 0.
+
+Lemma fmt_numtz_colon off :
+  off_ok off ->
+  fmt_numtz true false None off =
+  String (if off <? 0 then ch_dash else ch_plus)
+         (fmt2 (Z.abs off / 3600) +++ String ch_colon (fmt2 (Z.abs off / 60 mod 60))).
+Proof.
+  intros [Hr Hm]. unfold fmt_numtz.
+  assert (Hq : Z.quot off 60 = off / 60).
+  { rewrite Z.quot_div by lia. destruct (Z.sgn_spec off) as [[? ->]|[[? ->]|[? ->]]]; rewrite ?Z.abs_eq, ?Z.abs_neq by lia; lia. }
+  rewrite Hq.
+  replace (off / 60 <? 0) with (off <? 0) by (destruct (Z.ltb_spec off 0), (Z.ltb_spec (off / 60) 0); lia).
+  assert (Hz : Z.abs (off / 60) = Z.abs off / 60) by lia.
+  rewrite Hz.
+  rewrite Z.quot_div_nonneg by lia. rewrite Z.rem_mod_nonneg by lia.
+  rewrite !append_int_2 by lia.
+  replace (Z.abs off / 60 / 60) with (Z.abs off / 3600) by lia.
+  destruct (off <? 0); cbn [str1 String.append]; rewrite sapp_nil_r;
+    unfold fmt2; cbn [String.append]; reflexivity.
+Qed.
+
+Lemma parse_numtz_colon off r :
+  off_ok off ->
+  parse_numtz TZColon (fmt_numtz true false None off +++ r) = Some (off, r).
+Proof.
+  intros Ho. rewrite fmt_numtz_colon by exact Ho. destruct Ho as [Hr Hm].
+  unfold fmt2. cbn [String.append]. unfold parse_numtz.
+  replace (Ascii.eqb ch_colon ch_colon) with true by reflexivity.
+  unfold two_digits. rewrite !is_digit_true by lia. rewrite !digit_val_char by lia. cbn [andb].
+  set (hr := Z.abs off / 3600 / 10 * 10 + Z.abs off / 3600 mod 10).
+  set (mm := Z.abs off / 60 mod 60 / 10 * 10 + Z.abs off / 60 mod 60 mod 10).
+  assert (Hhr : hr = Z.abs off / 3600) by (unfold hr; lia).
+  assert (Hmm : mm = Z.abs off / 60 mod 60) by (unfold mm; lia).
+  destruct (Z.ltb_spec off 0).
+  - replace (sign_of ch_dash) with (Some (-1)) by reflexivity.
+    unfold mk_zoff.
+    replace (24 <? hr) with false by (symmetry; apply Z.ltb_ge; lia).
+    replace (60 <? mm) with false by (symmetry; apply Z.ltb_ge; lia).
+    cbn [orb Z.ltb Z.compare]. f_equal. f_equal. lia.
+  - replace (sign_of ch_plus) with (Some 1) by reflexivity.
+    unfold mk_zoff.
+    replace (24 <? hr) with false by (symmetry; apply Z.ltb_ge; lia).
+    replace (60 <? mm) with false by (symmetry; apply Z.ltb_ge; lia).
+    cbn [orb Z.ltb Z.compare]. f_equal. f_equal. lia.
+Qed.
+
+(* ================================================================== *)
+(* 14. Layout-level lemmas                                             *)
+(* ================================================================== *)
+
+(* items without the final end-of-input test *)
+Fixpoint parse_prefix (l : list litem) (f : pfields) (v : string) : option (pfields * string) :=
+  match l with
+  | [] => Some (f, v)
+  | it :: l' =>
+      match parse_item it f v with
+      | Some (f', v') => parse_prefix l' f' v'
+      | None => None
+      end
+  end.
+
+Lemma parse_items_app l1 l2 f v :
+  parse_items (l1 ++ l2) f v =
+  match parse_prefix l1 f v with
+  | Some (f', v') => parse_items l2 f' v'
+  | None => None
+  end.
+Proof.
+  revert f v. induction l1 as [|it l1 IH]; intros f v; cbn; [reflexivity|].
+  destruct (parse_item it f v) as [[f' v']|]; [apply IH|reflexivity].
+Qed.
+
+Lemma go_format_app l1 l2 t : go_format (l1 ++ l2) t = go_format l1 t +++ go_format l2 t.
+Proof.
+  induction l1 as [|it l1 IH]; cbn; [reflexivity|]. rewrite IH, sapp_assoc. reflexivity.
+Qed.
+
+(* the fields of a time.Time are in the ranges the formatter prints with
+   two digits *)
+Lemma g_field_ranges t :
+  1 <= g_month t <= 12 /\ 1 <= g_day t <= 31 /\
+  0 <= g_hour t < 24 /\ 0 <= g_minute t < 60 /\ 0 <= g_second t < 60.
+Proof.
+  destruct (valid_bounds _ _ _ (g_ymd_valid t)) as [Hm Hd].
+  pose proof (g_sod_range t) as Hs. unfold g_hour, g_minute, g_second. repeat split; lia.
+Qed.
+
+Definition year_ok (t : gtime) : Prop := 0 <= g_year t <= 9999.
+
+Definition fmt_date (t : gtime) : string :=
+  fmt4 (g_year t) +++ String ch_dash (fmt2 (g_month t) +++ String ch_dash (fmt2 (g_day t))).
+Definition fmt_time (t : gtime) : string :=
+  fmt2 (g_hour t) +++ String ch_colon (fmt2 (g_minute t) +++ String ch_colon
+    (fmt2 (g_second t) +++ append_nano9 (g_nsec t))).
+
+Lemma go_format_date t : year_ok t -> go_format lay_date_items t = fmt_date t.
+Proof.
+  intros Hy. destruct (g_field_ranges t) as (Hm & Hd & _).
+  unfold lay_date_items, fmt_date. cbn [go_format format_item].
+  rewrite append_int_4 by (unfold year_ok in Hy; lia). rewrite !append_int_2 by lia.
+  cbn [str1 String.append]. rewrite sapp_nil_r. reflexivity.
+Qed.
+
+Lemma go_format_time t : go_format lay_time_items t = fmt_time t.
+Proof.
+  destruct (g_field_ranges t) as (_ & _ & Hh & Hmi & Hs).
+  unfold lay_time_items, fmt_time. cbn [go_format format_item].
+  rewrite !append_int_2 by lia.
+  cbn [str1 String.append]. rewrite sapp_nil_r. reflexivity.
+Qed.
+
+Definition set_date (f : pfields) (t : gtime) : pfields :=
+  set_day (set_month (set_year f (g_year t)) (g_month t)) (g_day t).
+Definition set_clock (f : pfields) (t : gtime) : pfields :=
+  set_secfrac (set_min (set_hour f (g_hour t)) (g_minute t)) (g_second t) (g_nsec t).
+
+Lemma skip_char_lit c r :
+  Ascii.eqb c ch_space = false -> skip_char c (String c r) = Some r.
+Proof. intros H. unfold skip_char. rewrite H, Ascii.eqb_refl. reflexivity. Qed.
+
+Lemma parse_prefix_date f t r :
+  year_ok t -> parse_prefix lay_date_items f (fmt_date t +++ r) = Some (set_date f t, r).
+Proof.
+  intros Hy. destruct (g_field_ranges t) as (Hm & Hd & _). unfold year_ok in Hy.
+  unfold lay_date_items, fmt_date.
+  rewrite !sapp_assoc. cbn [parse_prefix parse_item].
+  rewrite parse_year_fmt4 by lia.
+  cbn [String.append]. rewrite skip_char_lit by reflexivity.
+  rewrite sapp_assoc. rewrite getnum_fmt2 by lia.
+  replace ((g_month t <=? 0) || (12 <? g_month t)) with false
+    by (symmetry; apply orb_false_iff; split; [apply Z.leb_gt|apply Z.ltb_ge]; lia).
+  cbn [String.append]. rewrite skip_char_lit by reflexivity.
+  rewrite getnum_fmt2 by lia. reflexivity.
+Qed.
+
+Lemma parse_prefix_time f t r :
+  nsec_ok t -> stop r ->
+  parse_prefix lay_time_items f (fmt_time t +++ r) = Some (set_clock f t, r).
+Proof.
+  intros Hn Hr. destruct (g_field_ranges t) as (_ & _ & Hh & Hmi & Hs).
+  unfold lay_time_items, fmt_time.
+  rewrite !sapp_assoc. cbn [parse_prefix parse_item].
+  rewrite getnum_fmt2 by lia.
+  replace (24 <=? g_hour t) with false by (symmetry; apply Z.leb_gt; lia).
+  cbn [String.append]. rewrite skip_char_lit by reflexivity.
+  rewrite sapp_assoc. rewrite getnum_fmt2 by lia.
+  replace (60 <=? g_minute t) with false by (symmetry; apply Z.leb_gt; lia).
+  cbn [String.append]. rewrite skip_char_lit by reflexivity.
+  rewrite sapp_assoc. rewrite getnum_fmt2 by lia.
+  replace (60 <=? g_second t) with false by (symmetry; apply Z.leb_gt; lia).
+  rewrite parse_frac_nano by assumption. reflexivity.
+Qed.
+
+(* a date layout never matches a string whose third byte is ':' *)
+Lemma date_items_fail_on_time l f t r :
+  parse_items (lay_date_items ++ l) f (fmt_time t +++ r) = None.
+Proof.
+  unfold lay_date_items, fmt_time, fmt2. cbn [app parse_items parse_item String.append].
+  unfold parse_year.
+  replace (is_digit ch_colon) with false by reflexivity.
+  rewrite !andb_false_r. cbn [andb]. reflexivity.
+Qed.
+
+(* a clock layout never matches a string starting with three digits *)
+Lemma time_items_fail_on_date l f t r :
+  year_ok t -> parse_items (lay_time_items ++ l) f (fmt_date t +++ r) = None.
+Proof.
+  intros Hy. unfold year_ok in Hy.
+  unfold lay_time_items, fmt_date, fmt4. cbn [app parse_items parse_item String.append].
+  unfold getnum. rewrite !is_digit_true by lia.
+  destruct (24 <=? _); [reflexivity|].
+  unfold skip_char. replace (Ascii.eqb ch_colon ch_space) with false by reflexivity.
+  rewrite (digit_not _ ch_colon) by (try apply is_digit_true; try reflexivity; lia).
+  reflexivity.
+Qed.
+
+Lemma stop_nil : stop EmptyString.
+Proof. exact I. Qed.
+
+Lemma stop_numtz off r : off_ok off -> stop (fmt_numtz true false None off +++ r).
+Proof.
+  intros Ho. rewrite fmt_numtz_colon by exact Ho. cbn [String.append].
+  destruct (off <? 0); cbn; split; reflexivity.
+Qed.
+
+(* ---------- whole layouts on formatted values ---------- *)
+
+Definition tz_str (off : Z) : string := fmt_numtz true false None off.
+
+Lemma parse_items_time l2 f t r :
+  nsec_ok t -> stop r ->
+  parse_items (lay_time_items ++ l2) f (fmt_time t +++ r) = parse_items l2 (set_clock f t) r.
+Proof. intros Hn Hr. rewrite parse_items_app, parse_prefix_time by assumption. reflexivity. Qed.
+
+Lemma parse_items_ts_T l2 f t r :
+  year_ok t -> nsec_ok t -> stop r ->
+  parse_items (lay_date_items ++ (LLit ch_T :: lay_time_items ++ l2)) f
+              (fmt_date t +++ String ch_T (fmt_time t +++ r))
+  = parse_items l2 (set_clock (set_date f t) t) r.
+Proof.
+  intros Hy Hn Hr. rewrite parse_items_app, parse_prefix_date by assumption.
+  cbn [parse_items parse_item]. rewrite skip_char_lit by reflexivity.
+  apply parse_items_time; assumption.
+Qed.
+
+Lemma parse_items_ts_space l f t r :
+  year_ok t ->
+  parse_items (lay_date_items ++ (LLit ch_space :: l)) f (fmt_date t +++ String ch_T r) = None.
+Proof.
+  intros Hy. rewrite parse_items_app, parse_prefix_date by assumption. reflexivity.
+Qed.
+
+Lemma parse_items_date_extra f t c r :
+  year_ok t -> parse_items lay_date_items f (fmt_date t +++ String c r) = None.
+Proof.
+  intros Hy. rewrite <- (app_nil_r lay_date_items).
+  rewrite parse_items_app, parse_prefix_date by assumption. reflexivity.
+Qed.
+
+Lemma parse_items_date_exact f t :
+  year_ok t -> parse_items lay_date_items f (fmt_date t) = Some (set_date f t).
+Proof.
+  intros Hy. rewrite <- (app_nil_r lay_date_items). rewrite <- (sapp_nil_r (fmt_date t)).
+  rewrite parse_items_app, parse_prefix_date by assumption. reflexivity.
+Qed.
+
+Lemma parse_tz_nil fm f : parse_items [LTZ fm] f EmptyString = None.
+Proof. reflexivity. Qed.
+
+Lemma tz_str_shape off : off_ok off ->
+  exists sg h1 h2 m1 m2,
+    tz_str off = String sg (String h1 (String h2 (String ch_colon (String m1 (String m2 EmptyString)))))
+    /\ Ascii.eqb sg ch_Z = false.
+Proof.
+  intros Ho. unfold tz_str. rewrite fmt_numtz_colon by exact Ho. unfold fmt2. cbn [String.append].
+  do 5 eexists. split; [reflexivity|]. destruct (off <? 0); reflexivity.
+Qed.
+
+Lemma parse_tz_short_fail f off : off_ok off -> parse_items [LTZ TZShort] f (tz_str off) = None.
+Proof.
+  intros Ho. destruct (tz_str_shape off Ho) as (sg & h1 & h2 & m1 & m2 & -> & Hsg).
+  cbn [parse_items parse_item]. rewrite Hsg. unfold parse_numtz.
+  destruct (sign_of sg); [|reflexivity]. destruct (two_digits h1 h2); [|reflexivity].
+  destruct (mk_zoff _ _ _ _); reflexivity.
+Qed.
+
+Lemma parse_tz_colon_ok f off :
+  off_ok off -> parse_items [LTZ TZColon] f (tz_str off) = Some (set_zoff f off).
+Proof.
+  intros Ho. destruct (tz_str_shape off Ho) as (sg & h1 & h2 & m1 & m2 & E & Hsg).
+  cbn [parse_items parse_item]. rewrite E, Hsg. rewrite <- E.
+  rewrite <- (sapp_nil_r (tz_str off)). unfold tz_str. rewrite parse_numtz_colon by exact Ho.
+  reflexivity.
+Qed.
+
+(* ---------- finish_parse on complete field records ---------- *)
+
+Lemma day_valid t :
+  (g_day t <? 1) || (days_in_month (g_year t) (g_month t) <? g_day t) = false.
+Proof.
+  pose proof (g_ymd_valid t) as H. unfold valid_ymd, valid_ymdb in H.
+  apply andb_true_iff in H. destruct H as [H H4]. apply andb_true_iff in H. destruct H as [H H3].
+  apply orb_false_iff. split; [apply Z.ltb_ge|apply Z.ltb_ge]; lia.
+Qed.
+
+Lemma month_nonneg t : (g_month t <? 0) = false.
+Proof. destruct (g_field_ranges t) as (Hm & _). apply Z.ltb_ge. lia. Qed.
+Lemma day_nonneg t : (g_day t <? 0) = false.
+Proof. destruct (g_field_ranges t) as (_ & Hd & _). apply Z.ltb_ge. lia. Qed.
+
+Lemma finish_full t zoff :
+  nsec_ok t ->
+  finish_parse (set_zoff (set_clock (set_date pf_init t) t) zoff) =
+  Some (if negb (zoff =? -1)
+        then mkg (g_local t - zoff) (g_nsec t) (ZFixed zoff)
+        else mkg (g_local t) (g_nsec t) zUTC).
+Proof.
+  intros Hn. unfold finish_parse.
+  cbn [set_zoff set_clock set_date set_secfrac set_min set_hour set_day set_month set_year pf_init
+       pf_year pf_month pf_day pf_hour pf_min pf_sec pf_nsec pf_z pf_zoff].
+  rewrite month_nonneg, day_nonneg, day_valid.
+  rewrite go_date_fields by exact Hn. unfold zUTC. rewrite zone_local_to_unix_fixed.
+  cbn [g_sec g_nsec]. rewrite Z.sub_0_r. destruct (negb (zoff =? -1)); reflexivity.
+Qed.
+
+Lemma finish_full_nozone t :
+  nsec_ok t ->
+  finish_parse (set_clock (set_date pf_init t) t) = Some (mkg (g_local t) (g_nsec t) zUTC).
+Proof.
+  intros Hn. change (set_clock (set_date pf_init t) t)
+    with (set_zoff (set_clock (set_date pf_init t) t) (-1)).
+  rewrite finish_full by exact Hn. reflexivity.
+Qed.
+
+Lemma finish_clock t zoff :
+  nsec_ok t ->
+  finish_parse (set_zoff (set_clock pf_init t) zoff) =
+  Some (if negb (zoff =? -1)
+        then mkg (day0 * 86400 + g_sod t - zoff) (g_nsec t) (ZFixed zoff)
+        else mkg (day0 * 86400 + g_sod t) (g_nsec t) zUTC).
+Proof.
+  intros Hn. unfold finish_parse.
+  cbn [set_zoff set_clock set_secfrac set_min set_hour pf_init
+       pf_year pf_month pf_day pf_hour pf_min pf_sec pf_nsec pf_z pf_zoff].
+  replace (-1 <? 0) with true by reflexivity.
+  replace ((1 <? 1) || (days_in_month 0 1 <? 1)) with false by reflexivity.
+  rewrite go_date_norm by (exact Hn || lia). unfold zUTC. rewrite zone_local_to_unix_fixed.
+  cbn [g_sec g_nsec]. fold day0. pose proof (g_hms_sod t) as Hs.
+  replace (day0 * 86400 + g_hour t * 3600 + g_minute t * 60 + g_second t - 0)
+    with (day0 * 86400 + g_sod t) by lia.
+  destruct (negb (zoff =? -1)); reflexivity.
+Qed.
+
+Lemma finish_clock_nozone t :
+  nsec_ok t ->
+  finish_parse (set_clock pf_init t) = Some (mkg (day0 * 86400 + g_sod t) (g_nsec t) zUTC).
+Proof.
+  intros Hn. change (set_clock pf_init t) with (set_zoff (set_clock pf_init t) (-1)).
+  rewrite finish_clock by exact Hn. reflexivity.
+Qed.
+
+Lemma finish_date t :
+  finish_parse (set_date pf_init t) = Some (mkg (g_days t * 86400) 0 zUTC).
+Proof.
+  unfold finish_parse.
+  cbn [set_date set_day set_month set_year pf_init
+       pf_year pf_month pf_day pf_hour pf_min pf_sec pf_nsec pf_z pf_zoff].
+  rewrite month_nonneg, day_nonneg, day_valid.
+  rewrite go_date_ymd by lia. unfold zUTC. rewrite zone_local_to_unix_fixed.
+  replace (-1 =? -1) with true by reflexivity. cbn [negb]. f_equal. f_equal. lia.
+Qed.
+
+Lemma stop_tz off : off_ok off -> stop (tz_str off).
+Proof. intros Ho. rewrite <- (sapp_nil_r (tz_str off)). apply stop_numtz. exact Ho. Qed.
+
+Lemma off_ok_not_unset off : off_ok off -> negb (off =? -1) = true.
+Proof. intros [_ Hm]. destruct (Z.eqb_spec off (-1)) as [->|]; [discriminate Hm|reflexivity]. Qed.
+
+(* ---------- the printed forms ---------- *)
+
+Lemma dt_string_date d : dt_kind d = KDate -> year_ok (to_g d) -> dt_string d = fmt_date (to_g d).
+Proof. intros Hk Hy. unfold dt_string. rewrite Hk. apply go_format_date. exact Hy. Qed.
+
+Lemma dt_string_time d : dt_kind d = KTime -> dt_string d = fmt_time (to_g d).
+Proof. intros Hk. unfold dt_string. rewrite Hk. apply go_format_time. Qed.
+
+Lemma dt_string_timetz d :
+  dt_kind d = KTimeTZ -> dt_string d = fmt_time (to_g d) +++ tz_str (dt_off d).
+Proof.
+  intros Hk. unfold dt_string. rewrite Hk. unfold out_layout, lay_timetz_out.
+  rewrite go_format_app, go_format_time. cbn [go_format format_item]. rewrite sapp_nil_r.
+  reflexivity.
+Qed.
+
+Lemma dt_string_ts d :
+  dt_kind d = KTimestamp -> year_ok (to_g d) ->
+  dt_string d = fmt_date (to_g d) +++ String ch_T (fmt_time (to_g d)).
+Proof.
+  intros Hk Hy. unfold dt_string. rewrite Hk. unfold out_layout, lay_ts.
+  rewrite !go_format_app, go_format_time, go_format_date by exact Hy. reflexivity.
+Qed.
+
+Lemma dt_string_tstz d :
+  dt_kind d = KTimestampTZ -> year_ok (to_g d) ->
+  dt_string d = fmt_date (to_g d) +++ String ch_T (fmt_time (to_g d) +++ tz_str (dt_off d)).
+Proof.
+  intros Hk Hy. unfold dt_string. rewrite Hk. unfold out_layout, lay_tstz_out, lay_ts.
+  rewrite !go_format_app, go_format_time, go_format_date by exact Hy.
+  cbn [go_format format_item]. rewrite !sapp_nil_r.
+  rewrite !sapp_assoc. reflexivity.
+Qed.
+
+(* ---------- the cascade on printed forms ---------- *)
+
+Lemma parse_raw_date t :
+  year_ok t -> parse_raw (fmt_date t) = Some (KDate, mkg (g_days t * 86400) 0 zUTC).
+Proof.
+  intros Hy. unfold parse_raw, go_parse, lay_date.
+  rewrite parse_items_date_exact by exact Hy. rewrite finish_date. reflexivity.
+Qed.
+
+Lemma go_parse_date_on_time t r : go_parse lay_date (fmt_time t +++ r) = None.
+Proof.
+  unfold go_parse, lay_date. rewrite <- (app_nil_r lay_date_items).
+  rewrite date_items_fail_on_time. reflexivity.
+Qed.
+
+Lemma parse_raw_time t :
+  nsec_ok t -> parse_raw (fmt_time t) = Some (KTime, mkg (day0 * 86400 + g_sod t) (g_nsec t) zUTC).
+Proof.
+  intros Hn. unfold parse_raw. rewrite <- (sapp_nil_r (fmt_time t)).
+  rewrite go_parse_date_on_time.
+  cbn [first_parse timetz_layouts]. unfold go_parse, lay_timetz, lay_time.
+  rewrite !parse_items_time by (exact Hn || exact stop_nil). rewrite !parse_tz_nil.
+  rewrite <- (app_nil_r lay_time_items) at 1.
+  rewrite parse_items_time by (exact Hn || exact stop_nil). cbn [parse_items str_empty].
+  rewrite finish_clock_nozone by exact Hn. reflexivity.
+Qed.
+
+Lemma parse_raw_timetz t off :
+  nsec_ok t -> off_ok off ->
+  parse_raw (fmt_time t +++ tz_str off) =
+  Some (KTimeTZ, mkg (day0 * 86400 + g_sod t - off) (g_nsec t) (ZFixed off)).
+Proof.
+  intros Hn Ho. unfold parse_raw. rewrite go_parse_date_on_time.
+  cbn [first_parse timetz_layouts]. unfold go_parse, lay_timetz.
+  rewrite !parse_items_time by (exact Hn || apply stop_tz; exact Ho).
+  rewrite parse_tz_short_fail, parse_tz_colon_ok by exact Ho.
+  rewrite finish_clock by exact Hn. rewrite off_ok_not_unset by exact Ho.
+  unfold offset_only_time_for, go_in. rewrite g_off_fixed. reflexivity.
+Qed.
+
+Lemma go_parse_clock_on_date l t r :
+  year_ok t -> go_parse (lay_time_items ++ l) (fmt_date t +++ r) = None.
+Proof. intros Hy. unfold go_parse. rewrite time_items_fail_on_date by exact Hy. reflexivity. Qed.
+
+Lemma lay_tstz_split sep fm :
+  lay_tstz sep fm = lay_date_items ++ (LLit sep :: lay_time_items ++ [LTZ fm]).
+Proof. reflexivity. Qed.
+Lemma lay_ts_split sep :
+  lay_ts sep = lay_date_items ++ (LLit sep :: lay_time_items ++ []).
+Proof. reflexivity. Qed.
+
+Lemma parse_raw_ts t :
+  year_ok t -> nsec_ok t ->
+  parse_raw (fmt_date t +++ String ch_T (fmt_time t)) =
+  Some (KTimestamp, mkg (g_local t) (g_nsec t) zUTC).
+Proof.
+  intros Hy Hn. unfold parse_raw.
+  unfold go_parse at 1. unfold lay_date. rewrite parse_items_date_extra by exact Hy.
+  cbn [first_parse timetz_layouts]. unfold lay_timetz.
+  rewrite !go_parse_clock_on_date by exact Hy.
+  unfold lay_time. rewrite <- (app_nil_r lay_time_items) at 1.
+  rewrite go_parse_clock_on_date by exact Hy.
+  rewrite <- (sapp_nil_r (fmt_time t)).
+  cbn [first_parse tstz_layouts ts_layouts]. unfold go_parse.
+  rewrite !lay_tstz_split, !lay_ts_split.
+  rewrite !parse_items_ts_T by (assumption || exact stop_nil).
+  rewrite !parse_items_ts_space by exact Hy.
+  rewrite !parse_tz_nil. cbn [parse_items str_empty].
+  rewrite finish_full_nozone by exact Hn. reflexivity.
+Qed.
+
+Lemma parse_raw_tstz t off :
+  year_ok t -> nsec_ok t -> off_ok off ->
+  parse_raw (fmt_date t +++ String ch_T (fmt_time t +++ tz_str off)) =
+  Some (KTimestampTZ, mkg (g_local t - off) (g_nsec t) (ZFixed off)).
+Proof.
+  intros Hy Hn Ho. unfold parse_raw.
+  unfold go_parse at 1. unfold lay_date. rewrite parse_items_date_extra by exact Hy.
+  cbn [first_parse timetz_layouts]. unfold lay_timetz.
+  rewrite !go_parse_clock_on_date by exact Hy.
+  unfold lay_time. rewrite <- (app_nil_r lay_time_items) at 1.
+  rewrite go_parse_clock_on_date by exact Hy.
+  cbn [first_parse tstz_layouts]. unfold go_parse.
+  rewrite !lay_tstz_split.
+  rewrite !parse_items_ts_T by (assumption || apply stop_tz; exact Ho).
+  rewrite !parse_items_ts_space by exact Hy.
+  rewrite parse_tz_short_fail, parse_tz_colon_ok by exact Ho.
+  rewrite finish_full by exact Hn. rewrite off_ok_not_unset by exact Ho. reflexivity.
+Qed.
+
+(* ================================================================== *)
+(* 15. string_parse_roundtrip                                          *)
+(* ================================================================== *)
+
+(* What a value must satisfy to survive String()/ParseTime:
+   - the invariants of the constructors (wf_dt),
+   - for the kinds that print a date: year 0..9999 (exactly four digits),
+   - for the kinds that print an offset: whole minutes, |offset| < 25h
+     ("-07:00" drops the seconds; Parse accepts zone hours up to 24). *)
+Definition printable (d : datetime) : Prop :=
+  wf_dt d /\
+  match dt_kind d with
+  | KDate | KTimestamp => year_ok (to_g d)
+  | KTime => True
+  | KTimeTZ => off_ok (dt_off d)
+  | KTimestampTZ => year_ok (to_g d) /\ off_ok (dt_off d)
+  end.
+
+Lemma adjust_none v : adjust_precision v (-1) = v.
+Proof. reflexivity. Qed.
+
+Theorem string_parse_roundtrip ctx d :
+  printable d -> parse_time ctx (dt_string d) (-1) = Some d.
+Proof.
+  intros [[Hn Hw] Hp]. unfold parse_time.
+  assert (Hnt : nsec_ok (to_g d)) by exact Hn.
+  destruct d as [k s n o]. destruct k; cbn [dt_kind] in Hw, Hp.
+  - (* date *)
+    destruct Hw as (Ho & Hm & Hz). cbn [dt_off dt_sec dt_nsec] in *. subst o n.
+    rewrite dt_string_date by (reflexivity || exact Hp).
+    rewrite parse_raw_date by exact Hp.
+    unfold build_parsed. rewrite new_date_nf. f_equal. f_equal.
+    unfold g_days, g_local, g_off, zone_offset_at, zUTC.
+    cbn [g_sec g_loc to_g dt_sec dt_off zone_lookup]. unfold secs_per_day. lia.
+  - (* time *)
+    destruct Hw as (Ho & Hr). cbn [dt_off dt_sec] in *. subst o. rewrite day0_val in Hr.
+    rewrite dt_string_time by reflexivity.
+    rewrite parse_raw_time by exact Hnt.
+    unfold build_parsed. rewrite adjust_none. rewrite new_time_nf by exact Hnt.
+    cbn [g_nsec to_g dt_nsec]. f_equal. f_equal.
+    unfold g_sod, g_local, g_off, zone_offset_at, zUTC.
+    cbn [g_sec g_loc to_g dt_sec dt_off zone_lookup]. unfold secs_per_day. rewrite day0_val. lia.
+  - (* timetz *)
+    cbn [dt_off dt_sec] in *. rewrite day0_val in Hw.
+    rewrite dt_string_timetz by reflexivity. cbn [dt_off].
+    rewrite parse_raw_timetz by assumption.
+    unfold build_parsed. rewrite adjust_none. rewrite new_timetz_nf by exact Hnt.
+    cbn [g_nsec to_g dt_nsec]. rewrite g_off_fixed. f_equal. f_equal.
+    unfold g_sod, g_local, g_off, zone_offset_at, zUTC.
+    cbn [g_sec g_loc to_g dt_sec dt_off zone_lookup]. unfold secs_per_day. rewrite day0_val. lia.
+  - (* timestamp *)
+    cbn [dt_off] in *. subst o.
+    rewrite dt_string_ts by (reflexivity || exact Hp).
+    rewrite parse_raw_ts by assumption.
+    unfold build_parsed. rewrite adjust_none. rewrite new_timestamp_nf by exact Hnt.
+    cbn [g_nsec to_g dt_nsec]. f_equal. f_equal.
+    unfold g_local, g_off, zone_offset_at, zUTC.
+    cbn [g_sec g_loc to_g dt_sec dt_off zone_lookup]. lia.
+  - (* timestamptz *)
+    destruct Hp as [Hy Ho]. cbn [dt_off] in *.
+    rewrite dt_string_tstz by (reflexivity || exact Hy). cbn [dt_off].
+    rewrite parse_raw_tstz by assumption.
+    unfold build_parsed. rewrite adjust_none. rewrite new_timestamptz_nf by exact Hnt.
+    cbn [g_nsec g_sec to_g dt_nsec]. rewrite g_off_fixed. f_equal. f_equal.
+    unfold g_local, g_off, zone_offset_at, zUTC.
+    cbn [g_sec g_loc to_g dt_sec dt_off zone_lookup]. lia.
+Qed.
+Print Assumptions string_parse_roundtrip.
+
+(* ================================================================== *)
+(* 16. marshal_unmarshal_roundtrip                                     *)
+(* ================================================================== *)
+
+Lemma length_sapp a b : String.length (a +++ b) = (String.length a + String.length b)%nat.
+Proof. induction a as [|c a IH]; cbn; [reflexivity|]. rewrite IH. reflexivity. Qed.
+
+Lemma go_len_sapp a b : go_len (a +++ b) = go_len a + go_len b.
+Proof. unfold go_len. rewrite length_sapp. lia. Qed.
+
+Lemma go_len_cons c s : go_len (String c s) = go_len s + 1.
+Proof. unfold go_len. cbn [String.length]. lia. Qed.
+
+Lemma go_len_nonneg s : 0 <= go_len s.
+Proof. unfold go_len. lia. Qed.
+
+Lemma get_sapp_r a b : forall j, String.get (String.length a + j) (a +++ b) = String.get j b.
+Proof. induction a as [|c a IH]; intros j; cbn; [reflexivity|apply IH]. Qed.
+
+Lemma get_sapp_l a b : forall j, (j < String.length a)%nat -> String.get j (a +++ b) = String.get j a.
+Proof.
+  induction a as [|c a IH]; intros j Hj; cbn in Hj; [lia|].
+  destruct j as [|j]; cbn; [reflexivity|]. apply IH. lia.
+Qed.
+
+Lemma go_index_sapp_r a b j : 0 <= j -> go_index (a +++ b) (go_len a + j) = go_index b j.
+Proof.
+  intros Hj. unfold go_index. rewrite go_len_sapp. pose proof (go_len_nonneg a) as Ha.
+  replace (go_len a + j <? 0) with false by (symmetry; apply Z.ltb_ge; lia).
+  replace (j <? 0) with false by (symmetry; apply Z.ltb_ge; lia).
+  replace (go_len a + go_len b <=? go_len a + j) with (go_len b <=? j)
+    by (destruct (Z.leb_spec (go_len b) j), (Z.leb_spec (go_len a + go_len b) (go_len a + j)); lia).
+  cbn [orb]. destruct (go_len b <=? j); [reflexivity|].
+  unfold go_len. rewrite Z2Nat.inj_add by lia. rewrite Nat2Z.id. rewrite get_sapp_r. reflexivity.
+Qed.
+
+Lemma go_index_sapp_l a b j : 0 <= j < go_len a -> go_index (a +++ b) j = go_index a j.
+Proof.
+  intros Hj. unfold go_index. rewrite go_len_sapp. pose proof (go_len_nonneg b) as Hb.
+  replace (j <? 0) with false by (symmetry; apply Z.ltb_ge; lia).
+  replace (go_len a + go_len b <=? j) with false by (symmetry; apply Z.leb_gt; lia).
+  replace (go_len a <=? j) with false by (symmetry; apply Z.leb_gt; lia).
+  cbn [orb]. rewrite get_sapp_l by (unfold go_len in Hj; lia). reflexivity.
+Qed.
+
+Lemma go_index_0 c s : go_index (String c s) 0 = Ret c.
+Proof.
+  unfold go_index. rewrite go_len_cons. pose proof (go_len_nonneg s).
+  replace (go_len s + 1 <=? 0) with false by (symmetry; apply Z.leb_gt; lia). reflexivity.
+Qed.
+
+Lemma substring_sapp a b : String.substring 0 (String.length a) (a +++ b) = a.
+Proof. induction a as [|c a IH]; cbn; [destruct b; reflexivity|]. rewrite IH. reflexivity. Qed.
+
+Lemma unquote_quoted s :
+  unquote (String ch_quote (s +++ String ch_quote EmptyString)) = Ret s.
+Proof.
+  unfold unquote. set (data := String ch_quote (s +++ String ch_quote EmptyString)).
+  assert (Hl : go_len data = go_len s + 2).
+  { unfold data. rewrite go_len_cons, go_len_sapp, go_len_cons. unfold go_len at 2. cbn. lia. }
+  pose proof (go_len_nonneg s) as Hs.
+  replace (2 <=? go_len data) with true by (symmetry; apply Z.leb_le; lia).
+  unfold data at 1. rewrite go_index_0. cbn [bindo]. rewrite Ascii.eqb_refl.
+  assert (Hi : go_index data (go_len data - 1) = Ret ch_quote).
+  { unfold data at 1. change (String ch_quote (s +++ String ch_quote EmptyString))
+      with ((String ch_quote s) +++ String ch_quote EmptyString).
+    replace (go_len data - 1) with (go_len (String ch_quote s) + 0) by (rewrite go_len_cons; lia).
+    rewrite go_index_sapp_r by lia. apply go_index_0. }
+  rewrite Hi. cbn [bindo]. rewrite Ascii.eqb_refl.
+  unfold go_slice. rewrite Hl.
+  replace (1 <? 0) with false by reflexivity.
+  replace (go_len s + 2 - 1 <? 1) with false by (symmetry; apply Z.ltb_ge; lia).
+  replace (go_len s + 2 <? go_len s + 2 - 1) with false by (symmetry; apply Z.ltb_ge; lia).
+  cbn [orb]. f_equal. unfold data.
+  replace (Z.to_nat (go_len s + 2 - 1 - 1)) with (String.length s) by (unfold go_len; lia).
+  change (Z.to_nat 1) with 1%nat. cbn [String.substring]. apply substring_sapp.
+Qed.
+
+(* bytes that are neither '-' nor '+' *)
+Definition no_sign (c : ascii) : bool := negb (Ascii.eqb c ch_dash) && negb (Ascii.eqb c ch_plus).
+
+Fixpoint all_no_sign (s : string) : Prop :=
+  match s with EmptyString => True | String c r => no_sign c = true /\ all_no_sign r end.
+
+Lemma all_no_sign_app a b : all_no_sign a -> all_no_sign b -> all_no_sign (a +++ b).
+Proof. induction a as [|c a IH]; cbn; [trivial|]. intros [Hc Ha] Hb. split; auto. Qed.
+
+Lemma digit_no_sign c : is_digit c = true -> no_sign c = true.
+Proof.
+  intros H. unfold no_sign. rewrite !(digit_not c) by (exact H || reflexivity). reflexivity.
+Qed.
+
+Lemma all_digits_no_sign s : all_digits s -> all_no_sign s.
+Proof. induction s as [|c s IH]; cbn; [trivial|]. intros [Hc Hs]. split; [apply digit_no_sign; exact Hc|auto]. Qed.
+
+Lemma fmt2_no_sign n : 0 <= n < 100 -> all_no_sign (fmt2 n).
+Proof. intros Hn. unfold fmt2. cbn. repeat split; apply digit_no_sign; apply is_digit_true; lia. Qed.
+
+Lemma nano_no_sign ns : all_no_sign (append_nano9 ns).
+Proof.
+  unfold append_nano9. destruct (ns =? 0); [exact I|].
+  destruct (str_empty _) eqn:E; [exact I|]. cbn [all_no_sign]. split; [reflexivity|].
+  apply all_digits_no_sign. apply strip0_all. apply fixed_digits_all.
+Qed.
+
+Lemma fmt_time_no_sign t : all_no_sign (fmt_time t).
+Proof.
+  destruct (g_field_ranges t) as (_ & _ & Hh & Hmi & Hs). unfold fmt_time.
+  repeat (first [ apply all_no_sign_app | apply fmt2_no_sign; lia | apply nano_no_sign
+                | (cbn [all_no_sign]; split; [reflexivity|]) ]).
+Qed.
+
+Lemma fmt_time_len t : 8 <= go_len (fmt_time t).
+Proof.
+  unfold fmt_time, fmt2. repeat (rewrite go_len_sapp || rewrite go_len_cons).
+  change (go_len EmptyString) with 0. pose proof (go_len_nonneg (append_nano9 (g_nsec t))). lia.
+Qed.
+
+Lemma no_sign_index q j c : all_no_sign q -> go_index q j = Ret c -> no_sign c = true.
+Proof.
+  unfold go_index. destruct ((j <? 0) || (go_len q <=? j)); [discriminate|].
+  generalize (Z.to_nat j). clear j. induction q as [|x q IH]; intros n Hq; cbn; [discriminate|].
+  destruct Hq as [Hx Hq]. destruct n as [|n]; [intros H; injection H as <-; exact Hx|].
+  apply IH. exact Hq.
+Qed.
+
+Lemma tz_str_len off : off_ok off -> go_len (tz_str off) = 6.
+Proof. intros Ho. destruct (tz_str_shape off Ho) as (sg & h1 & h2 & m1 & m2 & -> & _). reflexivity. Qed.
+
+(* the format switch of TimeTZ/TimestampTZ.UnmarshalJSON on a printed value *)
+Lemma tz_format_printed p t off :
+  off_ok off -> tz_format_for (p +++ (fmt_time t +++ tz_str off)) = Ret TZColon.
+Proof.
+  intros Ho. unfold tz_format_for.
+  pose proof (fmt_time_len t) as Hq. pose proof (go_len_nonneg p) as Hp.
+  pose proof (tz_str_len off Ho) as Hb.
+  assert (H9 : sign_at (p +++ (fmt_time t +++ tz_str off)) 9 = Ret false).
+  { unfold sign_at. rewrite !go_len_sapp, Hb.
+    replace (9 <=? go_len p + (go_len (fmt_time t) + 6)) with true by (symmetry; apply Z.leb_le; lia).
+    replace (go_len p + (go_len (fmt_time t) + 6) - 9) with (go_len p + (go_len (fmt_time t) - 3)) by lia.
+    rewrite go_index_sapp_r by lia. rewrite go_index_sapp_l by lia.
+    destruct (go_index_ok (fmt_time t) (go_len (fmt_time t) - 3) ltac:(lia)) as [c Hc].
+    rewrite Hc. cbn [bindo].
+    pose proof (no_sign_index _ _ _ (fmt_time_no_sign t) Hc) as Hns. unfold no_sign in Hns.
+    destruct (Ascii.eqb c ch_dash); [discriminate|]. cbn [bindo].
+    destruct (Ascii.eqb c ch_plus); [discriminate|]. reflexivity. }
+  rewrite H9. cbn [bindo].
+  assert (H6 : sign_at (p +++ (fmt_time t +++ tz_str off)) 6 = Ret true).
+  { unfold sign_at. rewrite !go_len_sapp, Hb.
+    replace (6 <=? go_len p + (go_len (fmt_time t) + 6)) with true by (symmetry; apply Z.leb_le; lia).
+    replace (go_len p + (go_len (fmt_time t) + 6) - 6) with (go_len p + (go_len (fmt_time t) + 0)) by lia.
+    rewrite go_index_sapp_r by lia. rewrite go_index_sapp_r by lia.
+    unfold tz_str. rewrite fmt_numtz_colon by exact Ho. rewrite go_index_0. cbn [bindo].
+    destruct (off <? 0); reflexivity. }
+  rewrite H6. reflexivity.
+Qed.
+
+Theorem marshal_unmarshal_roundtrip d :
+  printable d -> dt_unmarshal_json (dt_kind d) (dt_marshal_json d) = Ret (Some d).
+Proof.
+  intros [[Hn Hw] Hp]. unfold dt_unmarshal_json, dt_marshal_json.
+  rewrite unquote_quoted. cbn [bindo].
+  assert (Hnt : nsec_ok (to_g d)) by exact Hn.
+  destruct d as [k s n o]. destruct k; cbn [dt_kind] in Hw, Hp |- *.
+  - (* date *)
+    destruct Hw as (Ho & Hm & Hz). cbn [dt_off dt_sec dt_nsec] in *. subst o n.
+    rewrite dt_string_date by (reflexivity || exact Hp).
+    unfold go_parse, lay_date. rewrite parse_items_date_exact by exact Hp. rewrite finish_date.
+    cbn [omap]. rewrite new_date_nf. do 3 f_equal.
+    unfold g_days, g_local, g_off, zone_offset_at, zUTC.
+    cbn [g_sec g_loc to_g dt_sec dt_off zone_lookup]. unfold secs_per_day. lia.
+  - (* time *)
+    destruct Hw as (Ho & Hr). cbn [dt_off dt_sec] in *. subst o. rewrite day0_val in Hr.
+    rewrite dt_string_time by reflexivity.
+    unfold go_parse, lay_time. rewrite <- (app_nil_r lay_time_items).
+    rewrite <- (sapp_nil_r (fmt_time _)).
+    rewrite parse_items_time by (exact Hnt || exact stop_nil). cbn [parse_items str_empty].
+    rewrite finish_clock_nozone by exact Hnt. cbn [omap].
+    rewrite new_time_nf by exact Hnt.
+    cbn [g_nsec to_g dt_nsec]. do 3 f_equal.
+    unfold g_sod, g_local, g_off, zone_offset_at, zUTC.
+    cbn [g_sec g_loc to_g dt_sec dt_off zone_lookup]. unfold secs_per_day. rewrite day0_val. lia.
+  - (* timetz *)
+    cbn [dt_off dt_sec] in *. rewrite day0_val in Hw.
+    rewrite dt_string_timetz by reflexivity. cbn [dt_off].
+    change (fmt_time (to_g (mkdt KTimeTZ s n o)) +++ tz_str o)
+      with (EmptyString +++ (fmt_time (to_g (mkdt KTimeTZ s n o)) +++ tz_str o)) at 1.
+    rewrite tz_format_printed by exact Hp. cbn [bindo].
+    unfold go_parse, lay_timetz.
+    rewrite parse_items_time by (exact Hnt || apply stop_tz; exact Hp).
+    rewrite parse_tz_colon_ok by exact Hp.
+    rewrite finish_clock by exact Hnt. rewrite off_ok_not_unset by exact Hp.
+    cbn [omap]. unfold of_g. cbn [g_sec g_nsec to_g dt_nsec]. rewrite g_off_fixed. do 3 f_equal.
+    unfold g_sod, g_local, g_off, zone_offset_at.
+    cbn [g_sec g_loc to_g dt_sec dt_off zone_lookup]. unfold secs_per_day. rewrite day0_val. lia.
+  - (* timestamp *)
+    cbn [dt_off] in *. subst o.
+    rewrite dt_string_ts by (reflexivity || exact Hp).
+    unfold go_parse. rewrite lay_ts_split.
+    rewrite <- (sapp_nil_r (fmt_time _)).
+    rewrite parse_items_ts_T by (assumption || exact stop_nil). cbn [parse_items str_empty].
+    rewrite finish_full_nozone by exact Hnt. cbn [omap].
+    rewrite new_timestamp_nf by exact Hnt.
+    cbn [g_nsec to_g dt_nsec]. do 3 f_equal.
+    unfold g_local, g_off, zone_offset_at, zUTC.
+    cbn [g_sec g_loc to_g dt_sec dt_off zone_lookup]. lia.
+  - (* timestamptz *)
+    destruct Hp as [Hy Ho]. cbn [dt_off] in *.
+    rewrite dt_string_tstz by (reflexivity || exact Hy). cbn [dt_off].
+    set (t := to_g (mkdt KTimestampTZ s n o)) in *.
+    change (fmt_date t +++ String ch_T (fmt_time t +++ tz_str o))
+      with ((fmt_date t +++ String ch_T EmptyString) +++ (fmt_time t +++ tz_str o)) at 1
+      || (replace (fmt_date t +++ String ch_T (fmt_time t +++ tz_str o))
+            with ((fmt_date t +++ String ch_T EmptyString) +++ (fmt_time t +++ tz_str o)) at 1
+            by (rewrite sapp_assoc; reflexivity)).
+    rewrite tz_format_printed by exact Ho. cbn [bindo].
+    unfold go_parse. rewrite lay_tstz_split.
+    rewrite parse_items_ts_T by (assumption || apply stop_tz; exact Ho).
+    rewrite parse_tz_colon_ok by exact Ho.
+    rewrite finish_full by exact Hnt. rewrite off_ok_not_unset by exact Ho.
+    cbn [omap]. unfold of_g. cbn [g_sec g_nsec]. rewrite g_off_fixed. do 3 f_equal.
+    unfold t, g_local, g_off, zone_offset_at.
+    cbn [g_sec g_loc to_g dt_sec dt_off zone_lookup]. lia.
+Qed.
+Print Assumptions marshal_unmarshal_roundtrip.
